@@ -19,7 +19,10 @@ def main():
     seed = int(os.environ.get('VERIF_SEED', '0') or 0)
     prop = a.prop.upper()
     warnings.filterwarnings('ignore')
+    rp0 = json.load(open(a.replay)) if a.replay else None     # read first: Result() clears stale replays/<prop>-* files
     res = common.Result(prop, a.tier, seed)
+    if a.replay and not os.path.exists(a.replay):
+        json.dump(rp0, open(a.replay, 'w'), indent=1, default=str)
     res.trusted = list(common.GLOBAL_TRUSTED)
     try:
         mod = importlib.import_module('props.' + prop.lower())
@@ -32,8 +35,7 @@ def main():
         res.oblige('rainflow extension builds from extension.pyx', False, repr(e))
     try:
         if a.replay:
-            rp = json.load(open(a.replay))
-            return mod.replay(res, rp)
+            return mod.replay(res, rp0)
         mod.run(res)
     except Exception as e:   # the machinery itself broke: never report OK
         traceback.print_exc()
